@@ -507,6 +507,21 @@ func (p *vfE4Phase) sampleKeyValue(kid vfKeyId) {
 	}
 }
 
+// keyRelocked: some request of the phase re-locked or updated a hold of the key, or carried the
+// update flag (its log record then goes through the update branch of the compaction's HasLock).
+func (p *vfE4Phase) keyRelocked(db uint8, key int) bool {
+	if p.relocked[vfKeyId{db, key}] {
+		return true
+	}
+	for i := range p.eng.opLog {
+		op := &p.eng.opLog[i]
+		if op.Kind == "lock" && op.Db == db && op.Key == key && op.Flag&protocol.LOCK_FLAG_UPDATE_WHEN_LOCKED != 0 {
+			return true
+		}
+	}
+	return false
+}
+
 // runCompactions lets every compaction that a rotation has spawned so far run
 // to completion while the engine waits.
 func (p *vfE4Phase) runCompactions() {
